@@ -29,7 +29,7 @@ def ev_offsets(raw):
     return offs
 
 
-def stream_mutants(rng, base, key, limit):
+def stream_mutants(rng, base, key, limit, rot=0):
     evs = c12.stream_events(base, key)
     raw = obs.encode_stream(evs)
     offs = ev_offsets(raw)
@@ -149,7 +149,21 @@ def stream_mutants(rng, base, key, limit):
     put("empty", b"")
     put("header-only", raw[:8])
     put("short-header", raw[:5])
-    return stratify(rng, muts, limit)
+    out = stratify(rng, muts, limit)
+    # well-formed string arguments whose decoded description ends around the 1024 bytes the dump tool
+    # formats an event into: every label length from 950 to 1030 (quick tier: one length in four, the
+    # residue rotating with the base trace)
+    muts = []
+    jk = [k for k, e in enumerate(evs) if e[3]]
+    if jk:
+        k = jk[rot % len(jk)]
+        c, m, p, j = evs[k]
+        for ln in range(950, 1031):
+            if limit and (ln + rot) % 4:
+                continue
+            e = list(evs); e[k] = (c, m, p[:4].ljust(4, b"\0") + b"L" * ln + b"\0", True)
+            put("labellen:%s=%d" % (m, ln), obs.encode_stream(e))
+    return out + muts
 
 
 def mclass(kind):
@@ -351,7 +365,7 @@ def run_base(bi):
     lim = _CTX["limit"]
     muts = []
     key = keys[bi % len(keys)]
-    muts += stream_mutants(rng, base, key, lim)
+    muts += stream_mutants(rng, base, key, lim, rot=bi)
     muts += meta_mutants(rng, base, key, lim, rot=bi)
     muts += offsets_mutants(base)
     try:
@@ -436,7 +450,7 @@ def main(argv):
     cov = {"evaluations": n * len(TOOLS) + nsort, "distinct_nontrivial": len(kinds),
            "rule": "structure-aware mutants of valid multi-model traces (flags nibbles, jumbo size fields incl. values "
                    ">= 2^31, truncation at every offset of the last two events, payload shapes, jumbo data without NUL, "
-                   "MCV bytes, extreme clocks, page-multiple file sizes, byte noise; every JSON type at every metadata "
+                   "MCV bytes, string arguments of 950-1030 characters, extreme clocks, page-multiple file sizes, byte noise; every JSON type at every metadata "
                    "position, every metadata string grown to lengths 2^k-1, 2^k, 2^k+1 (k = 4..12), loom_cpus shapes, mark definitions, loom names, require dictionaries, malformed JSON, "
                    "clock-offset tables), each run through ovniemu/ovnidump/ovnitop/ovnisort built with ASan+UBSan and "
                    "the exact-size heap stream buffer. evaluations = tool runs; distinct_nontrivial = mutation kinds",
